@@ -160,6 +160,7 @@ def parity_case(draw, n_pred=1, with_lambda=0, moments=MOMENTS):
             case["lam" if j == 0 else f"lam{j + 1}"] = draw(
                 st.lists(lam, min_size=max(m, 1), max_size=max(m, 1))
             )
+    case["preload"] = draw(st.sampled_from([0, 0, 0, 1, 2, 3]))
     return case
 
 
@@ -267,8 +268,25 @@ def make_parity_moment(case):
     return getattr(red, case["moment"])(**bound_kwargs(case["bound"]))
 
 
+def rotated(case, k):
+    """The same rows rotated by k positions: a different dataset of the same size with the same (event, group) pairs."""
+    c = dict(case)
+    for key in ("x", "y", "sf", "cf"):
+        if case.get(key) is not None:
+            v = list(case[key])
+            c[key] = v[k % len(v):] + v[: k % len(v)]
+    return c
+
+
 def load_parity(case):
+    """Load the case's data into a new moment.  With case['preload'] = k > 0 the same moment object has first
+    loaded (and used) another dataset of the same size: load_data must rebuild everything derived from the data."""
     m = make_parity_moment(case)
+    k = case.get("preload", 0)
+    if k:
+        X0, y0, kw0 = build_data(rotated(case, k))
+        m.load_data(X0, y0, **kw0)
+        m.gamma(predictor(np.zeros(len(case["y"]))))
     X, y, kw = build_data(case)
     m.load_data(X, y, **kw)
     return m
